@@ -3,7 +3,7 @@ import copy
 
 from pvmon import netgen
 from pvmon.compare import snapshot, diff_snapshots, nonunique_physics
-from pvmon.monitors import Obs
+from pvmon.monitors import Obs, mon_c01, mon_c02, mon_c10
 from pvmon.props.common import rng_for, run_thermal
 
 MANIFEST = {
@@ -95,8 +95,36 @@ def run_case(case, ctx):
             if o != "ok":
                 obs.count("variant_not_converged")
                 continue
-        d, n, md = diff_snapshots(s0, snapshot(vnet), rtol=1e-7, atol=1e-9, col_atol={"qext_w": 1e-3, "t_k": 1e-7, "t_from_k": 1e-7,
-                                                                                      "t_to_k": 1e-7, "t_outlet_k": 1e-7, "deltat_k": 1e-7})
+        from pvmon import compare
+        compare.STATS.clear()
+        sv = snapshot(vnet)
+        d, n, md = diff_snapshots(s0, sv, rtol=1e-7, atol=1e-9, col_atol={"qext_w": 1e-3, "t_k": 1e-7, "t_from_k": 1e-7,
+                                                                         "t_to_k": 1e-7, "t_outlet_k": 1e-7, "deltat_k": 1e-7})
+        other_side = bool(compare.STATS.get("not_comparable_other_side_of_machine_law"))
+        if (d or other_side) and kind != "heat":
+            # Two converged runs that differ: either one of them is no solution (violation) or the network has several
+            # solutions.  The latter is decided by the law monitors: both runs conserve mass, obey the momentum law (and the
+            # thermal laws), and they differ in the direction of a flow or in the side of a pump / compressor law.
+            flipped = [(t, nm) for t, rows in s0.items() for nm, r in rows.items()
+                       if "mdot_from_kg_per_s" in r and nm in sv.get(t, {}) and r["mdot_from_kg_per_s"] * sv[t][nm]["mdot_from_kg_per_s"] < 0
+                       and min(abs(r["mdot_from_kg_per_s"]), abs(sv[t][nm]["mdot_from_kg_per_s"])) > 1e-6]
+            lawful = True
+            for n_ in (net, vnet):
+                o2 = Obs()
+                mopts = dict(base_opts, mode=mode)
+                mon_c01(n_, o2)
+                mon_c02(n_, o2, mopts)
+                if mode == "bidirectional":
+                    mon_c10(n_, o2, mopts)
+                lawful = lawful and not o2.violations
+            if lawful and flipped:
+                obs.violate("several_valid_solutions", "perturbed %s, damping %s: two converged runs differ in the direction of %d flows (first %s) and both "
+                            "satisfy mass balance, momentum%s laws: the network has several solutions, the start values decide which one is found"
+                            % (what, method, len(flipped), flipped[0], " and thermal" if mode == "bidirectional" else ""),
+                            perturbed=what, damping=method, flipped=[list(x) for x in flipped[:6]], machine_law_side=other_side)
+                d = []
+            elif other_side:
+                d = [("pump/compressor", "-", "side of the machine law", "differs although a law monitor rejects one of the runs")]
         total += n
         for w in what:
             obs.count("variants_compared_" + w)
